@@ -14,6 +14,7 @@ CONSTANTS
   ShareEffect = "readonly"
   RADS = {8}
   GMS = {64}
+  TableEnds = "nearest"
   Slicing = "layer"
   Export = FALSE
 INVARIANT StepRelationAnyUnit
